@@ -273,46 +273,69 @@ var rTreeRec = &Rule{
 				}
 			}
 		}
-		// guard of the cause-less fallback
-		var guard *ssa.BinOp
-		sx.EachInstr(dl, func(in ssa.Instruction) {
-			bo, ok := in.(*ssa.BinOp)
+		// guard of the cause-less fallback: whatever the spelling of the test (> 0 with the causes in the then-branch,
+		// == 0 with an early return, ...), the plain opaqueLeaf may be built only where len(MultierrorCauses) == 0
+		// is established
+		isMCLen := func(v ssa.Value) bool {
+			lc, ok := v.(*ssa.Call)
 			if !ok {
-				return
-			}
-			lc, ok := bo.X.(*ssa.Call)
-			if !ok {
-				return
+				return false
 			}
 			if b, ok := lc.Call.Value.(*ssa.Builtin); !ok || b.Name() != "len" {
-				return
+				return false
 			}
-			isMC := false
 			for k := range recvSubs(e, lc.Call.Args[0], nil) {
 				if strings.HasPrefix(k, "EncodedErrorLeaf.MultierrorCauses") {
-					isMC = true
+					return true
 				}
 			}
-			if !isMC {
-				return
-			}
-			if _, isIf := firstIfUser(bo); isIf {
-				guard = bo
-			}
-		})
+			return false
+		}
 		ol := p.Named("errbase", "opaqueLeaf")
-		if guard == nil || ol == nil {
-			c.Undecided("errbase.decodeLeaf: multi-cause fallback guard", dl.Pos(), "no branch on len(enc.MultierrorCauses) found")
+		if ol == nil {
+			c.InternalErr("errbase.opaqueLeaf", "type not found")
 			return
 		}
-		k, _ := sx.ConstInt(guard.Y)
-		isPositive := (guard.Op == token.GTR && k == 0) || (guard.Op == token.NEQ && k == 0) || (guard.Op == token.GEQ && k == 1)
-		c.Check(isPositive, "errbase.decodeLeaf: multi-cause fallback guard", guard.Pos(), "len(enc.MultierrorCauses) > 0",
-			fmt.Sprintf("the multi-cause fallback is taken under len(MultierrorCauses) %s %d: an unknown multi-cause node with fewer causes is decoded as a plain leaf and its branches are dropped", guard.Op, k))
+		nAl := 0
 		for _, al := range allocsOf(dl, ol) {
-			lits := dominatingLits(al.Block())
-			c.Check(hasLit(lits, guard, true), "errbase.decodeLeaf: cause-less opaqueLeaf fallback", al.Pos(), "reachable only when there is no cause to keep", "the cause-less opaque leaf can be built although MultierrorCauses is not empty")
+			nAl++
+			zero, why := false, "no test of len(enc.MultierrorCauses) dominates it"
+			for _, l := range dominatingLits(al.Block()) {
+				bo, ok := l.V.(*ssa.BinOp)
+				if !ok || !isMCLen(bo.X) {
+					continue
+				}
+				k, isK := sx.ConstInt(bo.Y)
+				if !isK {
+					continue
+				}
+				// does (len OP k) == !l.Neg imply len == 0 ?
+				holds := !l.Neg
+				implies := false
+				switch bo.Op {
+				case token.GTR: // len > k false  => len <= k
+					implies = !holds && k == 0
+				case token.GEQ: // len >= k false => len < k
+					implies = !holds && k == 1
+				case token.NEQ:
+					implies = !holds && k == 0
+				case token.EQL:
+					implies = holds && k == 0
+				case token.LSS:
+					implies = holds && k == 1
+				case token.LEQ:
+					implies = holds && k == 0
+				}
+				if implies {
+					zero = true
+				} else {
+					why = fmt.Sprintf("the dominating test len(MultierrorCauses) %s %d (taken as %v) does not imply that there is no cause", bo.Op, k, holds)
+				}
+			}
+			c.Check(zero, "errbase.decodeLeaf: cause-less opaqueLeaf fallback", al.Pos(), "reachable only when len(enc.MultierrorCauses) == 0 is established",
+				"the cause-less opaque leaf can be built although MultierrorCauses is not empty ("+why+"): an unknown multi-cause node with that many causes is decoded as a plain leaf and its branches are dropped")
 		}
+		c.Check(nAl >= 1, "errbase.decodeLeaf: multi-cause fallback guard", dl.Pos(), "a plain opaqueLeaf fallback exists", "decodeLeaf no longer builds a plain opaque leaf")
 	},
 }
 
